@@ -41,6 +41,8 @@ fn update_stages_blocks(
     global_stages: &mut BTreeMap<String, wgpu::ShaderStages>,
     stage: wgpu::ShaderStages,
 ) {
+    #[cfg(feature = "verif")]
+    crate::verif::step(crate::verif::Site::UpdateStagesBlocks);
     for statement in block.iter() {
         match statement {
             naga::Statement::Block(block) => {
@@ -75,6 +77,8 @@ fn update_stages(
     global_stages: &mut BTreeMap<String, wgpu::ShaderStages>,
     stage: wgpu::ShaderStages,
 ) {
+    #[cfg(feature = "verif")]
+    crate::verif::step(crate::verif::Site::UpdateStages);
     // Search the function body to find function call statements
     update_stages_blocks(module, &function.body, global_stages, stage);
 
